@@ -4,7 +4,7 @@ use crate::driver::{Coverage, Outcome, Violation};
 use serde_json::{json, Value};
 use std::collections::BTreeMap;
 
-#[derive(Default, Clone, Debug)]
+#[derive(Default, Clone, Debug, serde::Serialize, serde::Deserialize)]
 pub struct Tally {
     /// cases executed (each a distinct member of the enumerated family)
     pub cases: u64,
